@@ -352,7 +352,18 @@ def _v_assumptions_collapsed(tree):
     M.replace_stmt(g, lambda s: isinstance(s, ast.For) and M.src_is(s.iter, "assumptions"), M.stmts("for var, want in {lit_var(lit): lit > 0 for lit in assumptions}.items():\n    v = vals[var]\n    if v == UNDEF:\n        assign(var, want, -1)\n    elif (v == 1) != want:\n        conflicts += 1\n        return -2"))
 
 
+def _v_empty_universe_before_assumptions(tree):
+    g = M.find_func(tree, "solve_sat")
+    i_if = [i for i, st_ in enumerate(g.body) if isinstance(st_, ast.If) and M.src_is(st_.test, "n_vars == 0")]
+    i_as = [i for i, st_ in enumerate(g.body) if isinstance(st_, ast.For) and M.src_is(st_.iter, "assumptions") and M.src_has(st_, "n_vars")]
+    if not i_if or not i_as or i_if[0] < i_as[0]:
+        raise M.Skip("variable-count prologue not found")
+    st_ = g.body.pop(i_if[0])
+    g.body.insert(i_as[0], st_)
+
+
 VARIANTS = [
+    M.Variant("the empty-universe shortcut is taken before the assumed variables are counted (seed C01-M)", SAT, _v_empty_universe_before_assumptions, "C01-O8"),
     M.Variant("assumption list collapsed per variable before assertion (seed C01-B)", SAT, _v_assumptions_collapsed, "C01-O6"),
 
     M.Variant("backtrack reads the boundary after shrinking (original defect)", SAT, _v_backtrack_reads_after_shrink, "C01-O2"),
